@@ -11,7 +11,7 @@ PROPERTY = "C15"
 RULE = ("ScenarioRunnerNoTrade.run_model_no_trade with the per-country solver replaced by a stub returning a generated fraction fed "
         "(in [0,3], exactly 1.0 and values just around it boosted); countries_list drawn as empty / inclusion / exclusion / mixed over "
         "the 164 codes; oracle: net_pop = sum of populations of exactly the selected rows, net_pop_fed = sum of population x "
-        "min(1, fraction), ratio in [0,1], results has exactly the selected countries once each.  A few real (un-stubbed) selections pin "
+        "min(1, fraction), ratio in [0,1], results has exactly the selected countries once each (return_results is drawn: with False, the default, only the aggregates and the set of countries run are judged).  A few real (un-stubbed) selections pin "
         "the stub's contract (fraction = percent fed / 100).  Non-trivial = selection with >= 2 countries of which at least one has a "
         "fraction above 1 and one below 1; distinct by (selection, fractions) hash.")
 ASSUMPTIONS = ["selection semantics from the method's docstring: empty list = all, only '!'-prefixed codes = all others, any un-prefixed code = only the un-prefixed ones",
@@ -48,7 +48,9 @@ def selection_case(draw):
     fr = draw(st.lists(frac, min_size=len(isos), max_size=len(isos)))
     # any column of the input table can be overridden from the scenario file for every country of the run - the population too
     pop = draw(st.none() | st.none() | st.sampled_from([5000000, 10001, 9999999999]) | st.integers(10001, 9 * 10**9))
-    return dict(kind="stub", list=lst, fractions=fr, population=pop)
+    # the aggregate is documented for both values of return_results (False is the default the shipped scripts use)
+    rr = draw(st.booleans())
+    return dict(kind="stub", list=lst, fractions=fr, population=pop, return_results=rr)
 
 
 def expected_selection(lst, isos):
@@ -82,6 +84,7 @@ def run_stub(ctx, c):
     ScenarioRunnerNoTrade.run_optimizer_for_country = stub
     lst = list(c["list"])
     snap = list(lst)
+    rr = bool(c.get("return_results", True))
     opts = dict(model.BASELINE_COUNTRY)
     if c.get("population") is not None:
         opts["population"] = c["population"]
@@ -91,10 +94,11 @@ def run_stub(ctx, c):
         with quiet():
             world, net_pop, net_fed, results = ScenarioRunnerNoTrade().run_model_no_trade(
                 title="c15", create_pptx_with_all_countries=False, show_country_figures=False, show_map_figures=False,
-                add_map_slide_to_pptx=False, scenario_option=opts, countries_list=lst, return_results=True)
+                add_map_slide_to_pptx=False, scenario_option=opts, countries_list=lst, return_results=rr)
     finally:
         ScenarioRunnerNoTrade.run_optimizer_for_country = orig
     sel = expected_selection(c["list"], isos)
+    ctx.event("return_results_%s" % rr)
     ctx.event("list_" + ("empty" if not c["list"] else "exclusion" if all("!" in x for x in c["list"]) else
                          "inclusion" if not any("!" in x for x in c["list"]) else "mixed"))
     if lst != snap:
@@ -114,11 +118,12 @@ def run_stub(ctx, c):
         ctx.fail("aggregate-fed-differs-from-capped-weighted-sum", "net_pop_fed %.12g, sum of population x min(1, fraction) = %.12g" % (net_fed, exp_fed), c)
     if net_pop > 0 and not (0 <= net_fed / net_pop <= 1 + 1e-12):
         ctx.fail("aggregate-fraction-outside-0-1", "%.12g" % (net_fed / net_pop), c)
-    if sorted(results.keys()) != sorted(names[i] for i in sel):
-        ctx.fail("results-do-not-hold-exactly-the-selected-countries", "%d results for %d selected" % (len(results), len(sel)), c)
-    for i in sel:
-        if results[names[i]] != ("result-of", i):
-            ctx.fail("result-stored-under-wrong-country", i, c)
+    if rr:
+        if sorted(results.keys()) != sorted(names[i] for i in sel):
+            ctx.fail("results-do-not-hold-exactly-the-selected-countries", "%d results for %d selected" % (len(results), len(sel)), c)
+        for i in sel:
+            if results[names[i]] != ("result-of", i):
+                ctx.fail("result-stored-under-wrong-country", i, c)
     if len(sel) >= 2 and any(fr[i] > 1 for i in sel) and any(fr[i] < 1 for i in sel):
         ctx.nontrivial_case(dict(list=c["list"], f=[fr[i] for i in sel]))
     ctx.sample(dict(countries_list=c["list"][:6], selected=len(sel), net_pop=net_pop, net_pop_fed=net_fed), limit=3)
@@ -157,7 +162,7 @@ REAL = [(["ARG", "JPN"], {}), (["!USA"] + ["!" + c for c in []], None), (["NZL",
 
 def shard(ctx):
     thorough = ctx.tier == "thorough"
-    drive(ctx, selection_case(), lambda c: run_stub(ctx, c), 700 if thorough else 25, tag="stub")
+    drive(ctx, selection_case(), lambda c: run_stub(ctx, c), 700 if thorough else 80, tag="stub")
     for i, (lst, o) in enumerate(REAL):
         if o is None or i % ctx.nshards != ctx.shard:
             continue
